@@ -840,6 +840,8 @@ package gtab
 // the matched position list is handed over to the stack entry: the Context's
 // scratch slice no longer shares its array (a later match must not overwrite
 // the positions of this one).
+// a class rule matches the unfiltered sequence at a inside [a,b): the classes of the glyphs after the first are the rule's input classes, consecutively
+//@ pred rm2(l *SeqContext2, r *ClassSeqRule, seq []glyph.Info, a int, b int) = a + 1 + len(r.Input) <= b && forall i8 int :: 0 <= i8 && i8 < len(r.Input) ==> l.Input[seq[a+1+i8].GID] == r.Input[i8]
 //@ func (l *SeqContext2) apply(ctx *Context, a int, b int) (next int)   props: C07 C06
 //@   requires l != nil && ctx != nil && 0 <= a && a < b && b <= len(ctx.seq) && stackinv(ctx) && inside(ctx, b) && keepOK(ctx) && llOK(ctx)
 //@   requires forall i int :: 0 <= i && i < len(l.Rules) ==> forall j int :: 0 <= j && j < len(l.Rules[i]) ==> l.Rules[i][j] != nil
@@ -853,13 +855,21 @@ package gtab
 //@   return_assert next >= 0 ==> forall i int :: 0 <= i && i < len(rule.Input) ==> l.Input[seq[matchPos[i+1]].GID] == rule.Input[i]
 //@   return_assert next >= 0 ==> (forall i3 int :: 1 <= i3 && i3 < len(matchPos) ==> keptG(keep, seq[matchPos[i3]].GID)) && (forall i4 int :: forall q int :: 0 <= i4 && i4 + 1 < len(matchPos) && matchPos[i4] < q && q < matchPos[i4+1] ==> !keptG(keep, seq[q].GID))
 //@   return_assert next >= 0 ==> (next < b ==> keptG(keep, seq[next].GID)) && forall q int :: matchPos[len(matchPos)-1] < q && q < next ==> !keptG(keep, seq[q].GID)
+// without a glyph filter: the result is a match exactly if the first glyph is covered and some rule of the rule set of its class matches; the rule applied is the FIRST one that matches
+//@   ensures old(ctx.keep == nil) && next < 0 && has(l.Cov, old(ctx.seq[a].GID)) && l.Input[old(ctx.seq[a].GID)] < len(l.Rules) ==> forall j8 int :: 0 <= j8 && j8 < len(l.Rules[l.Input[old(ctx.seq[a].GID)]]) ==> !rm2(l, l.Rules[l.Input[old(ctx.seq[a].GID)]][j8], ctx.seq, a, b)
+//@   ensures next >= 0 ==> has(l.Cov, old(ctx.seq[a].GID)) && l.Input[old(ctx.seq[a].GID)] < len(l.Rules)
+//@   return_assert ctx.keep == nil && keep == nil && next >= 0 ==> rm2(l, rule, seq, a, b)
+//@   return_assert ctx.keep == nil && keep == nil && next >= 0 ==> exists j8 int :: 0 <= j8 && j8 < len(rules) && rule == rules[j8] && forall j9 int :: 0 <= j9 && j9 < j8 ==> !rm2(l, rules[j9], seq, a, b)
+//@   return_assert next >= 0 ==> ref(ctx.stack[len(ctx.stack)-1].Actions) == ref(rule.Actions) && len(ctx.stack[len(ctx.stack)-1].Actions) == len(rule.Actions)
 //@   opt assume_make=1
 //@   modifies ctx.scratch, ctx.stack, ctx.stack[*], ctx.scratch[*], all(nested), allelems(int), allelems(*nested)
 //@   loop 0
+//@     invariant ctx.keep == nil && keep == nil ==> forall j8 int :: 0 <= j8 && j8 < iter ==> !rm2(l, rules[j8], seq, a, b)
 //@     invariant stackinv(ctx) && inside(ctx, b) && len(ctx.stack) == old(len(ctx.stack)) && len(ctx.seq) == old(len(ctx.seq)) && ref(seq) == ref(ctx.seq) && off(seq) == off(ctx.seq) && len(seq) == len(ctx.seq) && b <= len(seq) && ctx.scratch == old(ctx.scratch) && keep == ctx.keep
 //@     invariant isnil(matchPos) || ref(matchPos) == ref(ctx.scratch) || fresh(matchPos)
 //@     invariant forall k int :: 0 <= k && k < len(ctx.stack) ==> !fresh(ctx.stack[k].InputPos)
 //@   loop 1
+//@     invariant ctx.keep == nil && keep == nil ==> p == a + iter && (forall i6 int :: 0 <= i6 && i6 < len(matchPos) ==> matchPos[i6] == a + i6)
 //@     invariant stackinv(ctx) && inside(ctx, b) && len(ctx.stack) == old(len(ctx.stack)) && len(ctx.seq) == old(len(ctx.seq)) && ref(seq) == ref(ctx.seq) && off(seq) == off(ctx.seq) && len(seq) == len(ctx.seq) && b <= len(seq) && ctx.scratch == old(ctx.scratch) && keep == ctx.keep
 //@     invariant ref(matchPos) == ref(ctx.scratch) || fresh(matchPos)
 //@     invariant forall k int :: 0 <= k && k < len(ctx.stack) ==> !fresh(ctx.stack[k].InputPos)
@@ -869,11 +879,13 @@ package gtab
 //@     invariant (forall i2 int :: 1 <= i2 && i2 < len(matchPos) ==> l.Input[seq[matchPos[i2]].GID] == rule.Input[i2-1])
 //@     invariant (forall i3 int :: 1 <= i3 && i3 < len(matchPos) ==> keptG(keep, seq[matchPos[i3]].GID)) && (forall i4 int :: forall q int :: 0 <= i4 && i4 + 1 < len(matchPos) && matchPos[i4] < q && q < matchPos[i4+1] ==> !keptG(keep, seq[q].GID)) && matchPos[len(matchPos)-1] == p
 //@   loop 2
+//@     invariant ctx.keep == nil && keep == nil ==> p == a + outerindex + 1
 //@     invariant a < p && p <= b && glyphsNeeded >= 0 && b <= len(seq) && len(seq) == len(ctx.seq) && ref(seq) == ref(ctx.seq) && off(seq) == off(ctx.seq) && len(ctx.seq) == old(len(ctx.seq)) && keep == ctx.keep
 //@     invariant forall k int :: 0 <= k && k < len(matchPos) ==> a <= matchPos[k] && matchPos[k] < p
 //@     invariant len(matchPos) >= 1 && forall q int :: matchPos[len(matchPos)-1] < q && q < p ==> !keptG(keep, seq[q].GID)
 //@     decreases b - p
 //@   loop 3
+//@     invariant ctx.keep == nil && keep == nil ==> p == a + len(rule.Input) + 1 && (forall i6 int :: 0 <= i6 && i6 < len(matchPos) ==> matchPos[i6] == a + i6) && exists j8 int :: 0 <= j8 && j8 < len(rules) && rule == rules[j8] && forall j9 int :: 0 <= j9 && j9 < j8 ==> !rm2(l, rules[j9], seq, a, b)
 //@     invariant a < p && p <= b && b <= len(seq) && len(seq) == len(ctx.seq) && ref(seq) == ref(ctx.seq) && off(seq) == off(ctx.seq) && len(ctx.seq) == old(len(ctx.seq)) && keep == ctx.keep
 //@     invariant forall k int :: 0 <= k && k < len(matchPos) ==> a <= matchPos[k] && matchPos[k] < p
 //@     invariant (forall k2 int :: 0 <= k2 && k2 + 1 < len(matchPos) ==> matchPos[k2] < matchPos[k2+1]) && matchPos[0] == a && len(matchPos) == len(rule.Input) + 1
@@ -884,6 +896,8 @@ package gtab
 //@     decreases b - p
 
 // Same structure as SeqContext2.apply, the rule set is chosen by coverage index.
+// a glyph rule matches the unfiltered sequence at a inside [a,b): the glyphs after the first are the rule's input glyphs, consecutively
+//@ pred rm1(r *SeqRule, seq []glyph.Info, a int, b int) = a + 1 + len(r.Input) <= b && forall i8 int :: 0 <= i8 && i8 < len(r.Input) ==> seq[a+1+i8].GID == r.Input[i8]
 //@ func (l *SeqContext1) apply(ctx *Context, a int, b int) (next int)   props: C07 C06
 //@   requires l != nil && ctx != nil && 0 <= a && a < b && b <= len(ctx.seq) && stackinv(ctx) && inside(ctx, b) && keepOK(ctx) && llOK(ctx)
 //@   requires forall g uint16 :: has(l.Cov, g) ==> 0 <= l.Cov[g] && l.Cov[g] < len(l.Rules)
@@ -898,13 +912,21 @@ package gtab
 //@   return_assert next >= 0 ==> forall i int :: 0 <= i && i < len(rule.Input) ==> seq[matchPos[i+1]].GID == rule.Input[i]
 //@   return_assert next >= 0 ==> (forall i3 int :: 1 <= i3 && i3 < len(matchPos) ==> keptG(keep, seq[matchPos[i3]].GID)) && (forall i4 int :: forall q int :: 0 <= i4 && i4 + 1 < len(matchPos) && matchPos[i4] < q && q < matchPos[i4+1] ==> !keptG(keep, seq[q].GID))
 //@   return_assert next >= 0 ==> (next < b ==> keptG(keep, seq[next].GID)) && forall q int :: matchPos[len(matchPos)-1] < q && q < next ==> !keptG(keep, seq[q].GID)
+// without a glyph filter: the result is a match exactly if the first glyph is covered and some rule of its rule set matches; the rule applied is the FIRST one that matches
+//@   ensures old(ctx.keep == nil) && next < 0 && has(l.Cov, old(ctx.seq[a].GID)) ==> forall j8 int :: 0 <= j8 && j8 < len(l.Rules[l.Cov[old(ctx.seq[a].GID)]]) ==> !rm1(l.Rules[l.Cov[old(ctx.seq[a].GID)]][j8], ctx.seq, a, b)
+//@   ensures next >= 0 ==> has(l.Cov, old(ctx.seq[a].GID))
+//@   return_assert ctx.keep == nil && keep == nil && next >= 0 ==> rm1(rule, seq, a, b)
+//@   return_assert ctx.keep == nil && keep == nil && next >= 0 ==> exists j8 int :: 0 <= j8 && j8 < len(rules) && rule == rules[j8] && forall j9 int :: 0 <= j9 && j9 < j8 ==> !rm1(rules[j9], seq, a, b)
+//@   return_assert next >= 0 ==> ref(ctx.stack[len(ctx.stack)-1].Actions) == ref(rule.Actions) && len(ctx.stack[len(ctx.stack)-1].Actions) == len(rule.Actions)
 //@   opt assume_make=1
 //@   modifies ctx.scratch, ctx.stack, ctx.stack[*], ctx.scratch[*], all(nested), allelems(int), allelems(*nested)
 //@   loop 0
+//@     invariant ctx.keep == nil && keep == nil ==> forall j8 int :: 0 <= j8 && j8 < iter ==> !rm1(rules[j8], seq, a, b)
 //@     invariant stackinv(ctx) && inside(ctx, b) && len(ctx.stack) == old(len(ctx.stack)) && len(ctx.seq) == old(len(ctx.seq)) && ref(seq) == ref(ctx.seq) && off(seq) == off(ctx.seq) && len(seq) == len(ctx.seq) && b <= len(seq) && ctx.scratch == old(ctx.scratch) && keep == ctx.keep
 //@     invariant isnil(matchPos) || ref(matchPos) == ref(ctx.scratch) || fresh(matchPos)
 //@     invariant forall k int :: 0 <= k && k < len(ctx.stack) ==> !fresh(ctx.stack[k].InputPos)
 //@   loop 1
+//@     invariant ctx.keep == nil && keep == nil ==> p == a + iter && (forall i6 int :: 0 <= i6 && i6 < len(matchPos) ==> matchPos[i6] == a + i6)
 //@     invariant stackinv(ctx) && inside(ctx, b) && len(ctx.stack) == old(len(ctx.stack)) && len(ctx.seq) == old(len(ctx.seq)) && ref(seq) == ref(ctx.seq) && off(seq) == off(ctx.seq) && len(seq) == len(ctx.seq) && b <= len(seq) && ctx.scratch == old(ctx.scratch) && keep == ctx.keep
 //@     invariant ref(matchPos) == ref(ctx.scratch) || fresh(matchPos)
 //@     invariant forall k int :: 0 <= k && k < len(ctx.stack) ==> !fresh(ctx.stack[k].InputPos)
@@ -914,11 +936,13 @@ package gtab
 //@     invariant (forall i2 int :: 1 <= i2 && i2 < len(matchPos) ==> seq[matchPos[i2]].GID == rule.Input[i2-1])
 //@     invariant (forall i3 int :: 1 <= i3 && i3 < len(matchPos) ==> keptG(keep, seq[matchPos[i3]].GID)) && (forall i4 int :: forall q int :: 0 <= i4 && i4 + 1 < len(matchPos) && matchPos[i4] < q && q < matchPos[i4+1] ==> !keptG(keep, seq[q].GID)) && matchPos[len(matchPos)-1] == p
 //@   loop 2
+//@     invariant ctx.keep == nil && keep == nil ==> p == a + outerindex + 1
 //@     invariant a < p && p <= b && glyphsNeeded >= 0 && b <= len(seq) && len(seq) == len(ctx.seq) && ref(seq) == ref(ctx.seq) && off(seq) == off(ctx.seq) && len(ctx.seq) == old(len(ctx.seq)) && keep == ctx.keep
 //@     invariant forall k int :: 0 <= k && k < len(matchPos) ==> a <= matchPos[k] && matchPos[k] < p
 //@     invariant len(matchPos) >= 1 && forall q int :: matchPos[len(matchPos)-1] < q && q < p ==> !keptG(keep, seq[q].GID)
 //@     decreases b - p
 //@   loop 3
+//@     invariant ctx.keep == nil && keep == nil ==> p == a + len(rule.Input) + 1 && (forall i6 int :: 0 <= i6 && i6 < len(matchPos) ==> matchPos[i6] == a + i6) && exists j8 int :: 0 <= j8 && j8 < len(rules) && rule == rules[j8] && forall j9 int :: 0 <= j9 && j9 < j8 ==> !rm1(rules[j9], seq, a, b)
 //@     invariant a < p && p <= b && b <= len(seq) && len(seq) == len(ctx.seq) && ref(seq) == ref(ctx.seq) && off(seq) == off(ctx.seq) && len(ctx.seq) == old(len(ctx.seq)) && keep == ctx.keep
 //@     invariant forall k int :: 0 <= k && k < len(matchPos) ==> a <= matchPos[k] && matchPos[k] < p
 //@     invariant (forall k2 int :: 0 <= k2 && k2 + 1 < len(matchPos) ==> matchPos[k2] < matchPos[k2+1]) && matchPos[0] == a && len(matchPos) == len(rule.Input) + 1
@@ -973,6 +997,8 @@ package gtab
 
 // Chained context, format 1: backtrack and lookahead are only inspected, the
 // new stack entry owns the match positions of the input sequence.
+// a chained rule matches the unfiltered sequence at a: backtrack before a (in reverse order), input inside [a,b), lookahead up to the end of the whole sequence, all at consecutive positions
+//@ pred cm1(l *ChainedSeqContext1, r *ChainedSeqRule, seq []glyph.Info, a int, b int) = a - len(r.Backtrack) >= 0 && (forall i5 int :: 0 <= i5 && i5 < len(r.Backtrack) ==> seq[a-1-i5].GID == r.Backtrack[i5]) && a + 1 + len(r.Input) <= b && (forall i6 int :: 0 <= i6 && i6 < len(r.Input) ==> seq[a+1+i6].GID == r.Input[i6]) && a + 1 + len(r.Input) + len(r.Lookahead) <= len(seq) && (forall i7 int :: 0 <= i7 && i7 < len(r.Lookahead) ==> seq[a+1+len(r.Input)+i7].GID == r.Lookahead[i7])
 //@ func (l *ChainedSeqContext1) apply(ctx *Context, a int, b int) (next int)   props: C07 C06
 //@   requires l != nil && ctx != nil && 0 <= a && a < b && b <= len(ctx.seq) && stackinv(ctx) && inside(ctx, b) && keepOK(ctx) && llOK(ctx)
 //@   requires forall g uint16 :: has(l.Cov, g) ==> 0 <= l.Cov[g] && l.Cov[g] < len(l.Rules)
@@ -987,23 +1013,34 @@ package gtab
 //@   return_assert next >= 0 ==> forall i int :: 0 <= i && i < len(rule.Input) ==> seq[matchPos[i+1]].GID == rule.Input[i]
 //@   return_assert next >= 0 ==> (forall i3 int :: 1 <= i3 && i3 < len(matchPos) ==> keptG(keep, seq[matchPos[i3]].GID)) && (forall i4 int :: forall q int :: 0 <= i4 && i4 + 1 < len(matchPos) && matchPos[i4] < q && q < matchPos[i4+1] ==> !keptG(keep, seq[q].GID))
 //@   return_assert next >= 0 ==> (next < b ==> keptG(keep, seq[next].GID)) && forall q int :: matchPos[len(matchPos)-1] < q && q < next ==> !keptG(keep, seq[q].GID)
+// without a glyph filter: the result is a match exactly if the first glyph is covered and some rule of its rule set matches; the rule applied is the FIRST one that matches
+//@   ensures old(ctx.keep == nil) && next < 0 && has(l.Cov, old(ctx.seq[a].GID)) ==> forall j8 int :: 0 <= j8 && j8 < len(l.Rules[l.Cov[old(ctx.seq[a].GID)]]) ==> !cm1(l, l.Rules[l.Cov[old(ctx.seq[a].GID)]][j8], ctx.seq, a, b)
+//@   ensures next >= 0 ==> has(l.Cov, old(ctx.seq[a].GID))
+//@   return_assert NK && next >= 0 ==> cm1(l, rule, seq, a, b)
+//@   return_assert NK && next >= 0 ==> exists j8 int :: 0 <= j8 && j8 < len(rules) && rule == rules[j8] && forall j9 int :: 0 <= j9 && j9 < j8 ==> !cm1(l, rules[j9], seq, a, b)
+//@   return_assert next >= 0 ==> ref(ctx.stack[len(ctx.stack)-1].Actions) == ref(rule.Actions) && len(ctx.stack[len(ctx.stack)-1].Actions) == len(rule.Actions)
+//@   let NK = ctx.keep == nil && keep == nil
 //@   opt assume_make=1
 //@   modifies ctx.scratch, ctx.stack, ctx.stack[*], ctx.scratch[*], all(nested), allelems(int), allelems(*nested)
 //@   let C = stackinv(ctx) && inside(ctx, b) && len(ctx.stack) == old(len(ctx.stack)) && len(ctx.seq) == old(len(ctx.seq)) && ref(seq) == ref(ctx.seq) && off(seq) == off(ctx.seq) && len(seq) == len(ctx.seq) && b <= len(seq) && ctx.scratch == old(ctx.scratch) && keep == ctx.keep
 //@   let L = len(ctx.seq) == old(len(ctx.seq)) && ref(seq) == ref(ctx.seq) && off(seq) == off(ctx.seq) && len(seq) == len(ctx.seq) && b <= len(seq) && keep == ctx.keep
 //@   loop 0
+//@     invariant NK ==> forall j8 int :: 0 <= j8 && j8 < iter ==> !cm1(l, rules[j8], seq, a, b)
 //@     invariant C
 //@     invariant isnil(matchPos) || ref(matchPos) == ref(ctx.scratch) || fresh(matchPos)
 //@     invariant forall k int :: 0 <= k && k < len(ctx.stack) ==> !fresh(ctx.stack[k].InputPos)
 //@   loop 1
+//@     invariant NK ==> p == a - iter && forall i5 int :: 0 <= i5 && i5 < iter ==> seq[a-1-i5].GID == rule.Backtrack[i5]
 //@     invariant C && rule != nil
 //@     invariant isnil(matchPos) || ref(matchPos) == ref(ctx.scratch) || fresh(matchPos)
 //@     invariant forall k int :: 0 <= k && k < len(ctx.stack) ==> !fresh(ctx.stack[k].InputPos)
 //@     invariant 0 <= p && p <= a && glyphsNeeded >= 0 && glyphsNeeded == len(rule.Backtrack) - iter
 //@   loop 2
+//@     invariant NK ==> p == a - 1 - outerindex
 //@     invariant L && -1 <= p && p < a && glyphsNeeded >= 0
 //@     decreases p + 1
 //@   loop 3
+//@     invariant NK ==> p == a + iter && (a - len(rule.Backtrack) >= 0 && forall i5 int :: 0 <= i5 && i5 < len(rule.Backtrack) ==> seq[a-1-i5].GID == rule.Backtrack[i5]) && (forall i6 int :: 0 <= i6 && i6 < iter ==> seq[a+1+i6].GID == rule.Input[i6])
 //@     invariant C && rule != nil
 //@     invariant ref(matchPos) == ref(ctx.scratch) || fresh(matchPos)
 //@     invariant forall k int :: 0 <= k && k < len(ctx.stack) ==> !fresh(ctx.stack[k].InputPos)
@@ -1012,11 +1049,13 @@ package gtab
 //@     invariant (forall i2 int :: 1 <= i2 && i2 < len(matchPos) ==> seq[matchPos[i2]].GID == rule.Input[i2-1])
 //@     invariant (forall i3 int :: 1 <= i3 && i3 < len(matchPos) ==> keptG(keep, seq[matchPos[i3]].GID)) && (forall i4 int :: forall q int :: 0 <= i4 && i4 + 1 < len(matchPos) && matchPos[i4] < q && q < matchPos[i4+1] ==> !keptG(keep, seq[q].GID)) && matchPos[len(matchPos)-1] == p
 //@   loop 4
+//@     invariant NK ==> p == a + outerindex + 1
 //@     invariant len(matchPos) >= 1 && forall q int :: matchPos[len(matchPos)-1] < q && q < p ==> !keptG(keep, seq[q].GID)
 //@     invariant L && a < p && p <= b && glyphsNeeded >= 0
 //@     invariant forall k int :: 0 <= k && k < len(matchPos) ==> a <= matchPos[k] && matchPos[k] < p
 //@     decreases b - p
 //@   loop 5
+//@     invariant NK ==> p == next + iter && next == a + len(rule.Input) && (a - len(rule.Backtrack) >= 0 && forall i5 int :: 0 <= i5 && i5 < len(rule.Backtrack) ==> seq[a-1-i5].GID == rule.Backtrack[i5]) && (forall i7 int :: 0 <= i7 && i7 < iter ==> seq[a+1+len(rule.Input)+i7].GID == rule.Lookahead[i7])
 //@     invariant C && rule != nil
 //@     invariant ref(matchPos) == ref(ctx.scratch) || fresh(matchPos)
 //@     invariant forall k int :: 0 <= k && k < len(ctx.stack) ==> !fresh(ctx.stack[k].InputPos)
@@ -1025,9 +1064,11 @@ package gtab
 //@     invariant (forall i2 int :: 1 <= i2 && i2 < len(matchPos) ==> seq[matchPos[i2]].GID == rule.Input[i2-1])
 //@     invariant (forall i3 int :: 1 <= i3 && i3 < len(matchPos) ==> keptG(keep, seq[matchPos[i3]].GID)) && (forall i4 int :: forall q int :: 0 <= i4 && i4 + 1 < len(matchPos) && matchPos[i4] < q && q < matchPos[i4+1] ==> !keptG(keep, seq[q].GID)) && matchPos[len(matchPos)-1] == next
 //@   loop 6
+//@     invariant NK ==> p == next + outerindex + 1
 //@     invariant L && a <= next && next < b && next < p && p <= len(seq) && glyphsNeeded >= 0
 //@     decreases len(seq) - p
 //@   loop 7
+//@     invariant NK ==> cm1(l, rule, seq, a, b) && exists j8 int :: 0 <= j8 && j8 < len(rules) && rule == rules[j8] && forall j9 int :: 0 <= j9 && j9 < j8 ==> !cm1(l, rules[j9], seq, a, b)
 //@     invariant L && a < next && next <= b
 //@     invariant forall k int :: 0 <= k && k < len(matchPos) ==> a <= matchPos[k] && matchPos[k] < next
 //@     invariant (forall k2 int :: 0 <= k2 && k2 + 1 < len(matchPos) ==> matchPos[k2] < matchPos[k2+1]) && matchPos[0] == a && len(matchPos) == len(rule.Input) + 1
@@ -1097,6 +1138,8 @@ package gtab
 //@     decreases len(seq) - p
 
 // Chained context, format 2 (class based); same structure as format 1.
+// a chained rule matches the unfiltered sequence at a: backtrack before a (in reverse order), input inside [a,b), lookahead up to the end of the whole sequence, all at consecutive positions
+//@ pred cm2(l *ChainedSeqContext2, r *ChainedClassSeqRule, seq []glyph.Info, a int, b int) = a - len(r.Backtrack) >= 0 && (forall i5 int :: 0 <= i5 && i5 < len(r.Backtrack) ==> l.Backtrack[seq[a-1-i5].GID] == r.Backtrack[i5]) && a + 1 + len(r.Input) <= b && (forall i6 int :: 0 <= i6 && i6 < len(r.Input) ==> l.Input[seq[a+1+i6].GID] == r.Input[i6]) && a + 1 + len(r.Input) + len(r.Lookahead) <= len(seq) && (forall i7 int :: 0 <= i7 && i7 < len(r.Lookahead) ==> l.Lookahead[seq[a+1+len(r.Input)+i7].GID] == r.Lookahead[i7])
 //@ func (l *ChainedSeqContext2) apply(ctx *Context, a int, b int) (next int)   props: C07 C06
 //@   requires l != nil && ctx != nil && 0 <= a && a < b && b <= len(ctx.seq) && stackinv(ctx) && inside(ctx, b) && keepOK(ctx) && llOK(ctx)
 //@   requires forall i int :: 0 <= i && i < len(l.Rules) ==> forall j int :: 0 <= j && j < len(l.Rules[i]) ==> l.Rules[i][j] != nil
@@ -1110,23 +1153,34 @@ package gtab
 //@   return_assert next >= 0 ==> forall i int :: 0 <= i && i < len(rule.Input) ==> l.Input[seq[matchPos[i+1]].GID] == rule.Input[i]
 //@   return_assert next >= 0 ==> (forall i3 int :: 1 <= i3 && i3 < len(matchPos) ==> keptG(keep, seq[matchPos[i3]].GID)) && (forall i4 int :: forall q int :: 0 <= i4 && i4 + 1 < len(matchPos) && matchPos[i4] < q && q < matchPos[i4+1] ==> !keptG(keep, seq[q].GID))
 //@   return_assert next >= 0 ==> (next < b ==> keptG(keep, seq[next].GID)) && forall q int :: matchPos[len(matchPos)-1] < q && q < next ==> !keptG(keep, seq[q].GID)
+// without a glyph filter: the result is a match exactly if the first glyph is covered and some rule of its rule set matches; the rule applied is the FIRST one that matches
+//@   ensures old(ctx.keep == nil) && next < 0 && has(l.Cov, old(ctx.seq[a].GID)) && l.Input[old(ctx.seq[a].GID)] < len(l.Rules) ==> forall j8 int :: 0 <= j8 && j8 < len(l.Rules[l.Input[old(ctx.seq[a].GID)]]) ==> !cm2(l, l.Rules[l.Input[old(ctx.seq[a].GID)]][j8], ctx.seq, a, b)
+//@   ensures next >= 0 ==> has(l.Cov, old(ctx.seq[a].GID)) && l.Input[old(ctx.seq[a].GID)] < len(l.Rules)
+//@   return_assert NK && next >= 0 ==> cm2(l, rule, seq, a, b)
+//@   return_assert NK && next >= 0 ==> exists j8 int :: 0 <= j8 && j8 < len(rules) && rule == rules[j8] && forall j9 int :: 0 <= j9 && j9 < j8 ==> !cm2(l, rules[j9], seq, a, b)
+//@   return_assert next >= 0 ==> ref(ctx.stack[len(ctx.stack)-1].Actions) == ref(rule.Actions) && len(ctx.stack[len(ctx.stack)-1].Actions) == len(rule.Actions)
+//@   let NK = ctx.keep == nil && keep == nil
 //@   opt assume_make=1
 //@   modifies ctx.scratch, ctx.stack, ctx.stack[*], ctx.scratch[*], all(nested), allelems(int), allelems(*nested)
 //@   let C = stackinv(ctx) && inside(ctx, b) && len(ctx.stack) == old(len(ctx.stack)) && len(ctx.seq) == old(len(ctx.seq)) && ref(seq) == ref(ctx.seq) && off(seq) == off(ctx.seq) && len(seq) == len(ctx.seq) && b <= len(seq) && ctx.scratch == old(ctx.scratch) && keep == ctx.keep
 //@   let L = len(ctx.seq) == old(len(ctx.seq)) && ref(seq) == ref(ctx.seq) && off(seq) == off(ctx.seq) && len(seq) == len(ctx.seq) && b <= len(seq) && keep == ctx.keep
 //@   loop 0
+//@     invariant NK ==> forall j8 int :: 0 <= j8 && j8 < iter ==> !cm2(l, rules[j8], seq, a, b)
 //@     invariant C
 //@     invariant isnil(matchPos) || ref(matchPos) == ref(ctx.scratch) || fresh(matchPos)
 //@     invariant forall k int :: 0 <= k && k < len(ctx.stack) ==> !fresh(ctx.stack[k].InputPos)
 //@   loop 1
+//@     invariant NK ==> p == a - iter && forall i5 int :: 0 <= i5 && i5 < iter ==> l.Backtrack[seq[a-1-i5].GID] == rule.Backtrack[i5]
 //@     invariant C && rule != nil
 //@     invariant isnil(matchPos) || ref(matchPos) == ref(ctx.scratch) || fresh(matchPos)
 //@     invariant forall k int :: 0 <= k && k < len(ctx.stack) ==> !fresh(ctx.stack[k].InputPos)
 //@     invariant 0 <= p && p <= a && glyphsNeeded >= 0 && glyphsNeeded == len(rule.Backtrack) - iter
 //@   loop 2
+//@     invariant NK ==> p == a - 1 - outerindex
 //@     invariant L && -1 <= p && p < a && glyphsNeeded >= 0
 //@     decreases p + 1
 //@   loop 3
+//@     invariant NK ==> p == a + iter && (a - len(rule.Backtrack) >= 0 && forall i5 int :: 0 <= i5 && i5 < len(rule.Backtrack) ==> l.Backtrack[seq[a-1-i5].GID] == rule.Backtrack[i5]) && (forall i6 int :: 0 <= i6 && i6 < iter ==> l.Input[seq[a+1+i6].GID] == rule.Input[i6])
 //@     invariant C && rule != nil
 //@     invariant ref(matchPos) == ref(ctx.scratch) || fresh(matchPos)
 //@     invariant forall k int :: 0 <= k && k < len(ctx.stack) ==> !fresh(ctx.stack[k].InputPos)
@@ -1135,11 +1189,13 @@ package gtab
 //@     invariant (forall i2 int :: 1 <= i2 && i2 < len(matchPos) ==> l.Input[seq[matchPos[i2]].GID] == rule.Input[i2-1])
 //@     invariant (forall i3 int :: 1 <= i3 && i3 < len(matchPos) ==> keptG(keep, seq[matchPos[i3]].GID)) && (forall i4 int :: forall q int :: 0 <= i4 && i4 + 1 < len(matchPos) && matchPos[i4] < q && q < matchPos[i4+1] ==> !keptG(keep, seq[q].GID)) && matchPos[len(matchPos)-1] == p
 //@   loop 4
+//@     invariant NK ==> p == a + outerindex + 1
 //@     invariant len(matchPos) >= 1 && forall q int :: matchPos[len(matchPos)-1] < q && q < p ==> !keptG(keep, seq[q].GID)
 //@     invariant L && a < p && p <= b && glyphsNeeded >= 0
 //@     invariant forall k int :: 0 <= k && k < len(matchPos) ==> a <= matchPos[k] && matchPos[k] < p
 //@     decreases b - p
 //@   loop 5
+//@     invariant NK ==> p == next + iter && next == a + len(rule.Input) && (a - len(rule.Backtrack) >= 0 && forall i5 int :: 0 <= i5 && i5 < len(rule.Backtrack) ==> l.Backtrack[seq[a-1-i5].GID] == rule.Backtrack[i5]) && (forall i7 int :: 0 <= i7 && i7 < iter ==> l.Lookahead[seq[a+1+len(rule.Input)+i7].GID] == rule.Lookahead[i7])
 //@     invariant C && rule != nil
 //@     invariant ref(matchPos) == ref(ctx.scratch) || fresh(matchPos)
 //@     invariant forall k int :: 0 <= k && k < len(ctx.stack) ==> !fresh(ctx.stack[k].InputPos)
@@ -1148,9 +1204,11 @@ package gtab
 //@     invariant (forall i2 int :: 1 <= i2 && i2 < len(matchPos) ==> l.Input[seq[matchPos[i2]].GID] == rule.Input[i2-1])
 //@     invariant (forall i3 int :: 1 <= i3 && i3 < len(matchPos) ==> keptG(keep, seq[matchPos[i3]].GID)) && (forall i4 int :: forall q int :: 0 <= i4 && i4 + 1 < len(matchPos) && matchPos[i4] < q && q < matchPos[i4+1] ==> !keptG(keep, seq[q].GID)) && matchPos[len(matchPos)-1] == next
 //@   loop 6
+//@     invariant NK ==> p == next + outerindex + 1
 //@     invariant L && a <= next && next < b && next < p && p <= len(seq) && glyphsNeeded >= 0
 //@     decreases len(seq) - p
 //@   loop 7
+//@     invariant NK ==> cm2(l, rule, seq, a, b) && exists j8 int :: 0 <= j8 && j8 < len(rules) && rule == rules[j8] && forall j9 int :: 0 <= j9 && j9 < j8 ==> !cm2(l, rules[j9], seq, a, b)
 //@     invariant L && a < next && next <= b
 //@     invariant forall k int :: 0 <= k && k < len(matchPos) ==> a <= matchPos[k] && matchPos[k] < next
 //@     invariant (forall k2 int :: 0 <= k2 && k2 + 1 < len(matchPos) ==> matchPos[k2] < matchPos[k2+1]) && matchPos[0] == a && len(matchPos) == len(rule.Input) + 1
